@@ -496,3 +496,21 @@ Proof.
   destruct d as [h body]. cbn [d_hdr d_body] in *.
   apply (G ops _ h); auto.
 Qed.
+
+(** NewDataMessageFromHeader: a valid data header is taken over unchanged; a non-zero PType or
+    SType is refused first, then the Q3 rules apply *)
+Lemma from_header_ok h body :
+  hdr_ok h -> h4 h = 0 -> h5 h = 0 -> (wait_bit h = true -> function_of h mod 2 <> 0) ->
+  new_data_message_from_header h (ItemOk body) = Ok (mkD h body).
+Proof.
+  intros Hok P S Q. unfold new_data_message_from_header. rewrite P, S. cbn [Z.eqb negb].
+  rewrite rebuild_hdr by assumption. reflexivity.
+Qed.
+Lemma from_header_rejects h it :
+  (h4 h <> 0 -> new_data_message_from_header h it = Err HPType) /\
+  (h4 h = 0 -> h5 h <> 0 -> new_data_message_from_header h it = Err HSType).
+Proof.
+  unfold new_data_message_from_header. split.
+  - intros H. destruct (h4 h =? 0) eqn:E; [lia|reflexivity].
+  - intros H4 H5. rewrite H4. cbn [Z.eqb negb]. destruct (h5 h =? 0) eqn:E; [lia|reflexivity].
+Qed.
